@@ -351,3 +351,29 @@ def pars_steps(sw, paths, quick, rnd):
         q = b_query.compare(r)
         if q:
             sw.fail('C02', key, f'after {opname} at {path}: {q}', src_after=r.src[:300])
+
+
+def move_steps(sw, paths, quick, rnd):
+    """C01: a statement cut (or copied) out of one block and appended to another block of a different depth - the
+    re-indentation of multi-line statements (strings, bytes, continuation lines) must keep tree == parse(source)"""
+    root = sw.fresh()
+    stmts = [p for p, cat, cls in paths if cat == 'stmt' and p[-1][1] is not None]
+    blocks = []
+    for p, f in node_paths(root):
+        for fld in ('body', 'orelse', 'finalbody'):
+            v = getattr(f.a, fld, None)
+            if isinstance(v, list) and v and isinstance(v[0], ast.stmt):
+                blocks.append((p, fld))
+    multi = [p for p in stmts if (lambda n: n is not None and n.end_ln > n.ln)(follow(root, p))]
+    k = 3 if quick else 20
+    sel = (multi[:k * 2] if quick else multi) + (rnd.sample(stmts, k) if len(stmts) > k else stmts)
+    for sp in sel:
+        cands = [b for b in blocks if b[0][:len(sp)] != sp and len(b[0]) + 1 != len(sp)]
+        same = [b for b in blocks if b[0][:len(sp)] != sp and len(b[0]) + 1 == len(sp)]
+        for bp, fld in (rnd.sample(cands, 2) if len(cands) > 2 else cands) + same[:1]:
+            for how in ('cut', 'copy'):
+                def fn(r, n, bp=bp, fld=fld, how=how):
+                    b = follow(r, bp) if bp else r
+                    piece = n.cut() if how == 'cut' else n.copy()
+                    getattr(b, fld).append(piece)
+                sw.step(sp, f'{how}()->append to {bp}.{fld}', fn)
